@@ -819,7 +819,7 @@ func (p *Prog) Killed(between []ssa.Instruction, locs map[Loc]bool, symRoots map
 				if !symRoots[root] {
 					continue
 				}
-			case *ssa.UnOp:
+			case *ssa.UnOp, *ssa.TypeAssert, *ssa.ChangeType, *ssa.Call:
 				if isFreshValue(root, 0) {
 					continue
 				}
